@@ -259,7 +259,12 @@ class C12(Prop):
           '(for the evolution operators the model is given the raw tree they return and predicts its bindings); '
           'plus a family of conditional choices nested in conditional choices with all their members, and named float '
           'points inside the candidates of non-distinct multi-choices (several positions active, name_or_id keys); '
-          'all look-ups (dna[dp], dna[id], dna[name], decision_ids, named_decisions) are made before and after every step. Non-trivial: the member has at least 2 nodes; '
+          'all look-ups (dna[dp], dna[id], dna[name], decision_ids, named_decisions) are made before and after every step; '
+          'every decision point of the spec (active or not) must be answerable by id and by decision point, and every id a '
+          'bound node advertises must resolve on that node; specs are built in steps (every part is inspected - decision_ids, '
+          'get(id) - before it is composed); float literal values incl. pairs closer than 1e-6; permutation points '
+          '(manyof(k) of k candidates with nested decisions) with from_dict of moved bound sub-DNAs and the PartiallyMapped / '
+          'Order / Cycle crossovers as producers; a member with every float at 0.0 / its bound. Non-trivial: the member has at least 2 nodes; '
           'distinct: by case JSON.')
   trusted_base = [
       'harness/c11_geno.py reference of members (case generation) and swap_sites (which node Swap picks)',
@@ -295,6 +300,8 @@ class C12(Prop):
         members += allm if len(allm) <= max_all else [allm[i * len(allm) // max_all] for i in range(max_all)]
     for _ in range(n_members):
       members.append(G.ref_member(spec, rng))
+    if not finite:
+      members.append(G.ref_member(spec, rng, floats='edge'))   # floats that are exactly 0.0 / on their bound
     uniq, seen = [], set()
     for m in members:
       k = G.freeze(m)
@@ -611,6 +618,7 @@ class C12(Prop):
     # named_decisions is the id-keyed one of the model, and the look-up tables are compared
     all_ids = [str(dp.id) for dp in spec.decision_points]
     out['ids_unique'] = len(set(all_ids)) == len(all_ids)
+    out['dp_names'] = [{'name': dp.name} for dp in spec.decision_points]
     for t in case['dnas']:
       d = H.mk_dna(t)
       d.use_spec(spec)
@@ -688,8 +696,21 @@ class C12(Prop):
         for (kt, vt, mk), x, y in zip(GRID, da['from_dicts'], db.get('from_dicts') or []):
           chk('dna%d.from_dict(to_dict(%s,%s,%s))' % (i, kt, vt, mk), x, y)
         if a.get('ids_unique'):
+          def norm_items(t):
+            # dna[name] of an INACTIVE named decision point: KeyError before fix C12-F400, None after it
+            if not t or not t.get('items'):
+              return t
+            dead = {k for k, v in t.get('named', []) if v is None}
+            names = [p.get('name') for p in dp_names]
+            items = []
+            for it, nm in zip(t['items'], names):
+              items.append(it[:2] + ['inactive-name'] if len(it) == 3 and nm in dead and it[2] in (None, 'KeyError')
+                           else it)
+            return dict(t, items=items)
+          dp_names = a.get('dp_names') or []
+          ta, tb = norm_items(da['lookup_tables']), norm_items(db.get('lookup_tables') or {})
           for k in ('by_id', 'named', 'ids', 'items'):
-            chk('dna%d.lookup_tables.%s' % (i, k), da['lookup_tables'][k], (db.get('lookup_tables') or {}).get(k))
+            chk('dna%d.lookup_tables.%s' % (i, k), ta[k], (tb or {}).get(k))
         # C12_dict_roundtrip: where the model's decidable condition holds the CODE must round-trip
         for (kt, vt, mk), x, cond in zip(GRID, da['from_dicts'], db.get('dict_conds') or []):
           if cond and x != da['norm']:
